@@ -20,6 +20,19 @@ Text is `List Char` everywhere (one representation; `String` only at the driver
 boundary).  This file imports only `Pdb.Gen.*` and core: it is linked into the
 compiled correspondence driver.
 
+T0 TIE.  Every string literal, format string and small decision table of the Rust anchors
+is taken from `Pdb.Gen.Text` (regenerated from /repo/src by tools/rs2lean_text.py on every
+check run): the `as_string` format pieces and argument order, the `from_string` split
+literals / keys / required-or-default table / compression guard, the metadata line formats,
+join separator, split character and the keys tested by the loader, the `file_name` /
+`is_file_name` formats of the three table kinds, the `||` chain of `is_file_name` tests in
+`Column::drop_files`, `log{id}`, `metadata`, `lock`, the
+`is_valid` conditions and the `CompressionType` discriminants.  What stays hand-written is
+the SEMANTICS of the library calls (`format!`, `split`, `lines`, `parse`, `starts_with`) and
+the binding of Rust field names / argument expressions to the fields of the Lean structures
+(`argText`, `nameArg`, `fromString`).  The side conditions the theorems need about the
+generated constants are discharged by `decide` in Pdb/Proofs/C17Gen.lean.
+
 MODELLING BOUNDARY
   * A directory is a partial function from file names to contents.  Contents are
     either text (only the `metadata` file is ever parsed) or opaque data.  I/O
@@ -58,6 +71,7 @@ DRIVER PROTOCOL (command `c17`, see `driverLine` at the end of the file)
   anything malformed  -> `bad-op`
 -/
 import Pdb.Gen.Consts
+import Pdb.Gen.Text
 
 namespace Pdb.C17
 
@@ -79,11 +93,28 @@ inductive Compression where
   | Snappy
 deriving DecidableEq, Repr
 
-/-- `compression as u8`. -/
-def Compression.code : Compression → Nat
+/-- The Rust name of the variant. -/
+def Compression.name : Compression → Text
+  | .NoCompression => t!"NoCompression"
+  | .Lz4 => t!"Lz4"
+  | .Snappy => t!"Snappy"
+
+/-- Position of the variant in the enum (used by the driver protocol only). -/
+def Compression.index : Compression → Nat
   | .NoCompression => 0
   | .Lz4 => 1
   | .Snappy => 2
+
+/-- `CompressionType::<name> as u8`, from the generated discriminant table. -/
+def codeOfName (n : Text) : Nat :=
+  match Gen.Text.compressionCodes.find? (fun r => r.1 = n) with
+  | some r => r.2
+  | none => 0
+
+/-- `compression as u8`. -/
+def Compression.code (c : Compression) : Nat := codeOfName c.name
+
+def allCompressions : List Compression := [.NoCompression, .Lz4, .Snappy]
 
 /-- Result of a computation that can return `None` or panic. -/
 inductive Parse (α : Type) where
@@ -92,12 +123,12 @@ inductive Parse (α : Type) where
   | panic
 deriving DecidableEq, Repr
 
-/-- `impl From<u8> for CompressionType`: unknown codes hit `panic!("Unknown compression.")`. -/
-def Compression.ofCode : Nat → Parse Compression
-  | 0 => .ok .NoCompression
-  | 1 => .ok .Lz4
-  | 2 => .ok .Snappy
-  | _ => .panic
+/-- `impl From<u8> for CompressionType` (`a if a == CompressionType::X as u8 => X`, in enum
+order): unknown codes hit `panic!("Unknown compression.")`. -/
+def Compression.ofCode (n : Nat) : Parse Compression :=
+  match allCompressions.find? (fun c => c.code = n) with
+  | some c => .ok c
+  | none => .panic
 
 /-- src/options.rs `struct ColumnOptions`. -/
 structure ColumnOptions where
@@ -111,15 +142,12 @@ structure ColumnOptions where
   allowDirectNodeAccess : Bool
 deriving DecidableEq, Repr
 
-/-- `ColumnOptions::is_valid`. -/
+/-- `ColumnOptions::is_valid`: the generated decision function applied to the fields. -/
 def ColumnOptions.isValid (o : ColumnOptions) : Bool :=
-  if o.refCounted && !o.preimage then false
-  else if o.refCounted && o.appendOnly then false
-  else if o.multitree && o.compression != .NoCompression then false
-  else true
+  Gen.Text.isValid o.preimage o.uniform o.refCounted o.btreeIndex o.multitree o.appendOnly
+    o.allowDirectNodeAccess (decide (o.compression = .NoCompression))
 
 def allBools : List Bool := [false, true]
-def allCompressions : List Compression := [.NoCompression, .Lz4, .Snappy]
 
 /-- All 2^7 x 3 = 384 option combinations. -/
 def allOptions : List ColumnOptions :=
@@ -145,8 +173,20 @@ def decGo : Nat → Nat → Text → Text
 /-- `format!("{}", n)` for an unsigned integer. -/
 def dec (n : Nat) : Text := decGo (n + 1) n []
 
-/-- `format!("{:02}", n)`: decimal, zero-padded to width 2 (wider numbers unchanged). -/
-def pad2 (n : Nat) : Text := if n < 10 then '0' :: dec n else dec n
+/-- `{:0w}` applied to an already printed number: zero-padded on the left to width `w`
+(longer texts unchanged; `w = 0` is the plain `{}`). -/
+def padTo (w : Nat) (t : Text) : Text := List.replicate (w - t.length) '0' ++ t
+
+/-- `format!` with the format string split at its holes (`pieces.length = vals.length + 1`,
+which the Rust compiler checks). -/
+def fmt : List Text → List Text → Text
+  | [], _ => []
+  | p :: _, [] => p
+  | p :: ps, v :: vs => p ++ (v ++ fmt ps vs)
+
+/-- `format!` for a generated (pieces, zero-pad widths) pair. -/
+def fmtW (f : List Text × List Nat) (vals : List Text) : Text :=
+  fmt f.1 (List.zipWith padTo f.2 vals)
 
 def hexDigitChar (d : Nat) : Char :=
   match d with
@@ -255,18 +295,31 @@ def joinLines : List Text → Text
   | [l] => l
   | l :: r => l ++ '\n' :: joinLines r
 
+/-- `Vec<String>::join(sep)`. -/
+def joinWith (sep : Text) : List Text → Text
+  | [] => []
+  | [l] => l
+  | l :: r => l ++ (sep ++ joinWith sep r)
+
 /-! ## `as_string` / `from_string` -/
 
-/-- `ColumnOptions::as_string`. -/
+/-- What `{}` prints for an argument expression of `as_string` (`self.` dropped).  The
+translator rejects any expression outside this vocabulary. -/
+def argText (o : ColumnOptions) (e : Text) : Text :=
+  if e = t!"preimage" then boolText o.preimage
+  else if e = t!"uniform" then boolText o.uniform
+  else if e = t!"ref_counted" then boolText o.refCounted
+  else if e = t!"compression as u8" then dec o.compression.code
+  else if e = t!"btree_index" then boolText o.btreeIndex
+  else if e = t!"multitree" then boolText o.multitree
+  else if e = t!"append_only" then boolText o.appendOnly
+  else if e = t!"allow_direct_node_access" then boolText o.allowDirectNodeAccess
+  else []
+
+/-- `ColumnOptions::as_string`: the generated format pieces filled with the generated
+argument list. -/
 def asString (o : ColumnOptions) : Text :=
-  t!"preimage: " ++ boolText o.preimage ++
-  t!", uniform: " ++ boolText o.uniform ++
-  t!", refc: " ++ boolText o.refCounted ++
-  t!", compression: " ++ dec o.compression.code ++
-  t!", ordered: " ++ boolText o.btreeIndex ++
-  t!", multitree: " ++ boolText o.multitree ++
-  t!", append_only: " ++ boolText o.appendOnly ++
-  t!", allow_direct_node_access: " ++ boolText o.allowDirectNodeAccess
+  fmt Gen.Text.asStringPieces (Gen.Text.asStringArgs.map (argText o))
 
 /-- `Some((pair.next()?, pair.next()?))`. -/
 def firstTwo : List Text → Option (Text × Text)
@@ -283,39 +336,60 @@ def lookupLast (k : Text) : List (Text × Text) → Option Text
 
 /-- The `HashMap<&str, &str>` of `from_string`, as an association list in text order. -/
 def parseItems (s : Text) : List (Text × Text) :=
-  let vals := match splitOn t!"sizes: " s with
+  let vals := match splitOn Gen.Text.fromStringSizesSep s with
     | v :: _ => v
     | [] => []
-  (splitOn t!", " vals).filterMap fun item => firstTwo (splitOn t!": " item)
+  (splitOn Gen.Text.fromStringItemSep vals).filterMap fun item =>
+    firstTwo (splitOn Gen.Text.fromStringKvSep item)
 
-/-- `vals.get(key).and_then(|c| c.parse().ok()).unwrap_or(false)`. -/
-def optFlag (items : List (Text × Text)) (key : Text) : Bool :=
-  match lookupLast key items with
-  | some v => (parseBool v).getD false
-  | none => false
+/-- `let <field> = vals.get(<key>)..` for the row of `field` in the generated table:
+required -> `vals.get(key)?.parse().ok()?` (`none` = the function returns `None`),
+defaulted -> `vals.get(key).and_then(|c| c.parse().ok()).unwrap_or(<default>)`. -/
+def readField {α : Type} (parse : Text → Option α) (items : List (Text × Text)) (field : Text) :
+    Option α :=
+  match Gen.Text.fromStringKeys.find? (fun r => r.1 = field) with
+  | none => none
+  | some (_, key, required, dflt) =>
+    ((lookupLast key items).bind parse).or (if required then none else parse dflt)
+
+/-- The eight locals of `from_string` (compression still as `u8`). -/
+structure RawOptions where
+  preimage : Bool
+  uniform : Bool
+  refCounted : Bool
+  compression : Nat
+  btreeIndex : Bool
+  multitree : Bool
+  appendOnly : Bool
+  allowDirectNodeAccess : Bool
+
+def readRaw (items : List (Text × Text)) : Option RawOptions :=
+  (readField parseBool items t!"preimage").bind fun preimage =>
+  (readField parseBool items t!"uniform").bind fun uniform =>
+  (readField parseBool items t!"ref_counted").bind fun refCounted =>
+  (readField (parseUnsigned 255) items t!"compression").bind fun compression =>
+  (readField parseBool items t!"btree_index").bind fun btreeIndex =>
+  (readField parseBool items t!"multitree").bind fun multitree =>
+  (readField parseBool items t!"append_only").bind fun appendOnly =>
+  (readField parseBool items t!"allow_direct_node_access").bind fun allowDirectNodeAccess =>
+  some { preimage, uniform, refCounted, compression, btreeIndex, multitree, appendOnly,
+         allowDirectNodeAccess }
 
 /-- `ColumnOptions::from_string`.  `None` for a missing / unparsable required key and for a
-compression code above `Snappy` (checked before `compression.into()`, which would panic). -/
+compression code above the guard variant (checked before `compression.into()`, which panics
+on an unknown code). -/
 def fromString (s : Text) : Parse ColumnOptions :=
-  let items := parseItems s
-  match (lookupLast t!"preimage" items).bind parseBool with
+  match readRaw (parseItems s) with
   | none => .none
-  | some preimage =>
-  match (lookupLast t!"uniform" items).bind parseBool with
-  | none => .none
-  | some uniform =>
-  match (lookupLast t!"refc" items).bind parseBool with
-  | none => .none
-  | some refCounted =>
-    let code := ((lookupLast t!"compression" items).bind (parseUnsigned 255)).getD 0
-    match Compression.ofCode code with
-    | .ok compression =>
-      .ok { preimage, uniform, refCounted, compression,
-            btreeIndex := optFlag items t!"ordered",
-            multitree := optFlag items t!"multitree",
-            appendOnly := optFlag items t!"append_only",
-            allowDirectNodeAccess := optFlag items t!"allow_direct_node_access" }
-    | _ => .none
+  | some r =>
+    if r.compression > codeOfName Gen.Text.fromStringMaxCompression then .none
+    else match Compression.ofCode r.compression with
+      | .ok compression =>
+        .ok { preimage := r.preimage, uniform := r.uniform, refCounted := r.refCounted,
+              compression, btreeIndex := r.btreeIndex, multitree := r.multitree,
+              appendOnly := r.appendOnly, allowDirectNodeAccess := r.allowDirectNodeAccess }
+      | .none => .none
+      | .panic => .panic
 
 /-! ## Metadata file -/
 
@@ -365,20 +439,23 @@ structure Metadata where
   columns : List ColumnOptions
 deriving DecidableEq, Repr
 
+/-- `format!("col{}={}", i, columns[i].as_string())`. -/
 def colLine (i : Nat) (o : ColumnOptions) : Text :=
-  t!"col" ++ dec i ++ '=' :: asString o
+  fmt Gen.Text.metaColPieces [dec i, asString o]
 
-/-- `format!("col{}={}", i, columns[i].as_string())` for `i = first, first+1, ..`. -/
+/-- The `col` lines for `i = first, first+1, ..`. -/
 def colLines : Nat → List ColumnOptions → List Text
   | _, [] => []
   | i, o :: r => colLine i o :: colLines (i + 1) r
 
+/-- `vec![format!("version={}", ..), format!("salt={}", hex::encode(salt))]` + the `col` lines. -/
 def metaLines (version : Nat) (salt : List Nat) (cols : List ColumnOptions) : List Text :=
-  (t!"version=" ++ dec version) :: (t!"salt=" ++ hexEncode salt) :: colLines 0 cols
+  fmt Gen.Text.metaVersionPieces [dec version] :: fmt Gen.Text.metaSaltPieces [hexEncode salt] ::
+    colLines 0 cols
 
 /-- The text written by `write_metadata_file_with_version`. -/
 def encodeMeta (version : Nat) (salt : List Nat) (cols : List ColumnOptions) : Text :=
-  joinLines (metaLines version salt cols)
+  joinWith Gen.Text.metaJoinSep (metaLines version salt cols)
 
 /-- Loop state of `load_metadata_file`. -/
 structure MetaAcc where
@@ -391,20 +468,20 @@ def u32Max : Nat := 4294967295
 
 /-- One iteration of the loop over `file.lines()`. -/
 def stepLine (st : MetaAcc) (l : Text) : Outcome MetaAcc :=
-  match splitChar '=' l with
+  match splitChar Gen.Text.metaSplitChar l with
   | k :: v :: _ =>
-    if k = t!"version" then
+    if k = Gen.Text.metaKeyVersion then
       match parseUnsigned u32Max v with
       | some n => .ok { st with version := n }
       | none => .err .corruptionBadVersion
-    else if k = t!"salt" then
+    else if k = Gen.Text.metaKeySalt then
       match hexDecode v with
       | none => .err .corruptionBadSalt
       | some bytes =>
         -- `salt_slice.try_into()` fails unless the slice has exactly 32 bytes
         if bytes.length = 32 then .ok { st with salt := some bytes }
         else .err .corruptionBadSalt
-    else if (t!"col").isPrefixOf k then
+    else if Gen.Text.metaColPrefix.isPrefixOf k then
       match fromString v with
       | .ok o => .ok { st with columns := st.columns ++ [o] }
       | .none => .err .corruptionBadColumn
@@ -467,10 +544,12 @@ def Dir.ofList {β : Type} : List (FileName × Content β) → Dir β
 def Dir.write {β : Type} (d : Dir β) (n : FileName) (c : Content β) : Dir β :=
   fun m => if m = n then some c else d m
 
-def metadataName : FileName := t!"metadata"
-def lockName : FileName := t!"lock"
+/-- The name pushed by `Options::load_metadata` (the sites that write it and that test for
+its existence use the same literal: `C17Gen.metadataName_sites`). -/
+def metadataName : FileName := Gen.Text.metadataNameLoad
+def lockName : FileName := Gen.Text.lockName
 /-- src/log.rs `format!("log{id}")`. -/
-def logName (id : Nat) : FileName := t!"log" ++ dec id
+def logName (id : Nat) : FileName := fmt Gen.Text.logNamePieces [dec id]
 
 /-- The three kinds of per-column files. -/
 inductive FileKind where
@@ -479,14 +558,43 @@ inductive FileKind where
   | refcount
 deriving DecidableEq, Repr
 
-def FileKind.name : FileKind → Text
-  | .index => t!"index"
-  | .table => t!"table"
-  | .refcount => t!"refcount"
+/-- The Rust module whose table id type names the files of this kind (the translator rejects
+any other module in the deletion test of `Column::drop_files`). -/
+def FileKind.ofModule (m : Text) : Option FileKind :=
+  if m = t!"index" then some .index
+  else if m = t!"table" then some .table
+  else if m = t!"ref_count" then some .refcount
+  else none
+
+/-- The generated format of `is_file_name` (index.rs / table.rs / ref_count.rs). -/
+def FileKind.isFileNameFmt : FileKind → List Text × List Nat
+  | .index => Gen.Text.indexIsFileName
+  | .table => Gen.Text.tableIsFileName
+  | .refcount => Gen.Text.refcountIsFileName
+
+/-- The generated format of `file_name`. -/
+def FileKind.fileNameFmt : FileKind → List Text × List Nat
+  | .index => Gen.Text.indexFileName
+  | .table => Gen.Text.tableFileName
+  | .refcount => Gen.Text.refcountFileName
+
+/-- The generated argument list of `file_name`. -/
+def FileKind.fileNameArgs : FileKind → List Text
+  | .index => Gen.Text.indexFileNameArgs
+  | .table => Gen.Text.tableFileNameArgs
+  | .refcount => Gen.Text.refcountFileNameArgs
 
 /-- `format!("index_{col:02}_")`, `format!("table_{col:02}_")`, `format!("refcount_{col:02}_")`. -/
 def filePrefix (k : FileKind) (col : Nat) : Text :=
-  k.name ++ '_' :: (pad2 col ++ ['_'])
+  fmtW k.isFileNameFmt [dec col]
+
+/-- What an argument expression of `file_name` prints, `x` being the low byte of the table
+id.  The translator rejects any expression outside this vocabulary. -/
+def nameArg (col x : Nat) (e : Text) : Text :=
+  if e = t!"self.col()" then dec col
+  else if e = t!"self.index_bits()" then dec x
+  else if e = t!"hex(&[self.size_tier()])" then hexByte x
+  else []
 
 def columnFilePrefixes (col : Nat) : List Text :=
   [filePrefix .index col, filePrefix .table col, filePrefix .refcount col]
@@ -494,16 +602,15 @@ def columnFilePrefixes (col : Nat) : List Text :=
 /-- `TableId::file_name`: `index_{col:02}_{index_bits}`, `table_{col:02}_{tier as 2 hex
 digits}`, `refcount_{col:02}_{index_bits}`; `x` is the low byte of the table id. -/
 def fileName (k : FileKind) (col x : Nat) : FileName :=
-  filePrefix k col ++ (match k with
-    | .table => hexByte x
-    | _ => dec x)
+  fmtW k.fileNameFmt (k.fileNameArgs.map (nameArg col x))
 
 /-- The test in `Column::drop_files`: `index::TableId::is_file_name(col, f) ||
 table::TableId::is_file_name(col, f) || RefCountTableId::is_file_name(col, f)`. -/
 def isColumnFile (col : Nat) (name : FileName) : Bool :=
-  (filePrefix .index col).isPrefixOf name ||
-  (filePrefix .table col).isPrefixOf name ||
-  (filePrefix .refcount col).isPrefixOf name
+  Gen.Text.dropFilesTests.any fun module =>
+    match FileKind.ofModule module with
+    | some k => (filePrefix k col).isPrefixOf name
+    | none => false
 
 /-- `Column::drop_files`. -/
 def dropFiles {β : Type} (col : Nat) (d : Dir β) : Dir β :=
@@ -706,7 +813,7 @@ def bit (b : Bool) : String := if b then "1" else "0"
 
 def renderOptions (o : ColumnOptions) : String :=
   " ".intercalate [bit o.preimage, bit o.uniform, bit o.refCounted,
-    toString o.compression.code, bit o.btreeIndex, bit o.multitree, bit o.appendOnly,
+    toString o.compression.index, bit o.btreeIndex, bit o.multitree, bit o.appendOnly,
     bit o.allowDirectNodeAccess]
 
 def parseBit : String → Option Bool
